@@ -49,7 +49,9 @@ THEOREMS = [
         "schedule_independent parallel_eq_serial final_is_solo footprint_gives_hyp "
         "generated_footprints_ok generated_workers_complete "
         # parent side
-        "generated_decision_is_std generated_helpers_std auto_rule yes_rule no_rule invalid_option_raises "
+        "generated_decision_is_std generated_helpers_std process_parallel_auto_rule process_parallel_yes_rule "
+        "process_parallel_no_rule generated_pickle_guard_std auto_rule yes_rule no_rule unpicklable_peak_runs_serially "
+        "picklable_peak_decision_unchanged invalid_option_raises "
         "pool_size_bounds pool_size_ignores_task_count generated_parent_ok generated_sites_complete "
         "generated_serial_is_worker_loop tasks_partition_outputs generated_outputs_partitioned "
         "assembly_eq_serial generated_srs_owner srs_hyp srs_final_cells peak_applied_once "
@@ -77,9 +79,7 @@ RULE = (
 )
 ASSUMPTIONS = ["fork start method (Linux default for multiprocessing.Pool in this Python)",
                "maxcpu is None or a non-negative integer",
-               "a callable `peak` handed to the parallel path is picklable (when it is not the parallel path raises where the "
-               "serial one returns: reported by the oracle as the finding parallel-path-raises:srs:peak-callable-not-picklable; "
-               "`generated_peak_travels_in_task_tuple` states the cause on the regenerated table)"]
+               "pickle.dumps(f) raises exactly for the functions the pool cannot hand over (PeakArg.unpicklable of the model)"]
 PARTIAL = (
     "partial: proved for the modelled protocol — schedule independence (tasks = deterministic step functions over "
     "shared cells, footprints regenerated from the source), the decision rule, the partition of the output arrays by "
@@ -91,19 +91,20 @@ PARTIAL = (
     "that a finished worker has written every cell its write patterns cover (hypothesis `hTot` of "
     "assembly_eq_serial; checked on recording arrays).  fdepsd's post-processing (G1 … G12, data frames) enters "
     "the theorem as an arbitrary function `post` of the output cells: that it is the same code on both paths is a "
-    "regenerated fact (the tail does not mention `parallel`), its arithmetic is not modelled here (C10).  Open finding: a "
-    "`peak` function that cannot be pickled (lambda, nested function) makes the parallel path of srs.srs raise "
-    "(with the default parallel='auto' as soon as sig.size > 50000 and len(freq) > 1) while parallel='no' returns the "
-    "spectrum; the theorems take the peak as a mathematical function and assume it reaches the workers"
+    "regenerated fact (the tail does not mention `parallel`), its arithmetic is not modelled here (C10).  The override of "
+    "srs.srs for a `peak` function that cannot be pickled (F53, repaired) is in the decision model (`yes_rule`, "
+    "`auto_rule` take the peak argument as an input); what pickle accepts is an input of the model, not modelled"
 )
 MANIFEST = {
     "level_text": "Proof (Lean 4), worker side: in any system of deterministic tasks whose writes go only to cells "
     "owned by the task and whose steps depend only on read-only cells and the task's own cells, every complete "
     "schedule (any interleaving, worker count, completion order) ends in the same shared memory as serial execution "
     "(`schedule_independent`, `parallel_eq_serial`); a well-formed access footprint implies those hypotheses "
-    "(`footprint_gives_hyp`).  Parent side: the decision `_process_parallel` stated outright for the regenerated "
-    "table (`auto_rule`: pool iff LF > 1 and size > 50000 and not getresp and cpu count > 1 and not Windows; "
-    "`yes_rule`: pool size = maxcpu if 0 < maxcpu < cpu count, else 4/5 of the cpu count above four CPUs, else the "
+    "(`footprint_gives_hyp`).  Parent side: the decision stated outright for the regenerated tables, with the `peak` "
+    "argument as an input (`auto_rule`: pool iff LF > 1 and size > 50000 and not getresp and cpu count > 1 and not "
+    "Windows and `peak` is not a function pickle refuses; `yes_rule`: the pool unless `peak` is such a function — "
+    "`unpicklable_peak_runs_serially`, regenerated guard `generated_pickle_guard_std` (repair F53); the helper alone, "
+    "as fdepsd uses it: `process_parallel_auto_rule / _yes_rule / _no_rule`); pool size = maxcpu if 0 < maxcpu < cpu count, else 4/5 of the cpu count above four CPUs, else the "
     "cpu count — it does not depend on the number of tasks; `no_rule`, `invalid_option_raises`, `pool_size_bounds`); "
     "`tasks_partition_outputs` / `generated_outputs_partitioned`: for the regenerated footprints and shared-array "
     "shapes and ANY number of frequencies, columns, time steps and bins every cell of every output array is "
@@ -429,14 +430,14 @@ def _signal(rng, N, H, kind):
 _STYPES = ["absacce", "relacce", "relvelo", "reldisp", "pvelo", "pacce"]
 _ICS = ["zero", "shift", "mshift", "steady"]
 _TIMES = ["primary", "total", "residual"]
-_PEAKS = ["abs", "pos", "neg", "poss", "negs", "rms", "callable-meansq"]
+_PEAKS = ["abs", "pos", "neg", "poss", "negs", "rms", "callable-meansq", "callable-lambda"]
 _LAYOUTS = ["C", "C", "F", "strided", "colstrided", "reversed"]
 _ROLLS = ["none", "none", "none", "fft", "lanczos", "prefilter", "linear"]
 
 
 def _srs_cases(ctx):
     rng = ctx.rng
-    peaks = ["abs", "pos", "neg", "poss", "negs", "rms", "rms", "callable-meansq"]
+    peaks = ["abs", "pos", "neg", "poss", "negs", "rms", "rms", "callable-meansq", "callable-meansq", "callable-lambda"]
     n = ctx.pick(220, 1500)
     cases = []
     grid = list(itertools.product(_STYPES, _ICS, [False, True]))
@@ -492,8 +493,24 @@ def _perm_cases(ctx, pool, maxLF):
 
 
 def _meansq(resp):
-    """a user peak function (documented: any callable reducing axis 0)"""
+    """a user peak function (documented: any callable reducing axis 0); module level: pickle accepts it, the
+    parallel path must really be used"""
     return np.mean(resp * resp, axis=0)
+
+
+# the same function as something pickle refuses (attribute lookup of '<lambda>' fails): since the repair F53
+# (6fe4fad) srs.srs runs such a `peak` serially whatever `parallel` says; before it the parallel path raised
+_LAMBDA_PEAK = lambda resp: np.mean(resp * resp, axis=0)  # noqa: E731
+
+
+def _peak_of(c):
+    return {"callable-meansq": _meansq, "callable-lambda": _LAMBDA_PEAK}.get(c["peak"], c["peak"])
+
+
+def _peak_kind(routine, c):
+    if routine != "srs":
+        return "name"
+    return {"callable-meansq": "picklable", "callable-lambda": "unpicklable"}.get(c["peak"], "name")
 
 
 def _cast(a, dtype, scale):
@@ -546,7 +563,7 @@ def _run_srs(c, parallel):
             _set_delays(c["LF"], "none", c["seed"])
         else:
             _set_delays(c["LF"], c["pattern"], c["seed"], c.get("order"), c.get("gap", 0.02))
-    peak = _meansq if c["peak"] == "callable-meansq" else c["peak"]
+    peak = _peak_of(c)
     with warnings.catch_warnings():
         warnings.simplefilter("ignore")
         out = srs.srs(sig, 200.0, freq, 20.0, ic=c["ic"], stype=c["stype"], peak=peak, eqsine=c["eqsine"],
@@ -667,7 +684,8 @@ def _plan_query(routine, c, ser, plans, par):
     q_plan = "plan %s | %s | %d | %s" % (rname, ";".join(atoms), LF, ";".join("%s=%d" % kv for kv in env.items()))
     mc = c["maxcpu"]
     size = c["N"] * (1 if c["oneD"] else c["H"]) if routine == "srs" else int(np.size(par.sig))
-    q_dec = "dec %s %d %d %s %d %d 0" % (mode, LF, size, "none" if mc is None else mc, 1 if getresp else 0, c.get("cpu", 16))
+    q_dec = "dec %s %d %d %s %d %d 0 %s %s" % (mode, LF, size, "none" if mc is None else mc, 1 if getresp else 0, c.get("cpu", 16),
+                                               routine, _peak_kind(routine, c))
 
     def check(rep_plan, rep_dec):
         diffs = []
@@ -768,14 +786,24 @@ def _compare_all(ctx, report, hints=(), extra=()):
             want = list(c["order"])
             hit = order == want
             ctx.count("perm-%s:%s" % ("recording" if fake else "real", "observed" if hit else "missed"))
-            if hit:
+            if routine == "srs" and c["peak"] == "callable-lambda":
+                pass  # serial fallback: no completion order to observe (the same order is met with other peaks)
+            elif hit:
                 _PERMS_SEEN.setdefault(("recording" if fake else "real", routine, c["LF"]), set()).add(tuple(order))
         if not fake:
             # "maxcpu: maximum number of CPUs to use": the tasks must not have run in more processes than that
             pids = {int(_PIDS[j]) for j in set(order)}
             if c["maxcpu"] and len(pids) > c["maxcpu"]:
                 report(routine, c, "tasks ran in %d different worker processes with maxcpu=%d" % (len(pids), c["maxcpu"]))
-        went_serial = fake and c.get("parallel") == "auto" and not plans
+        # an unpicklable `peak` is run by the serial loop (no task reaches a worker); a picklable callable is not
+        fallback = routine == "srs" and c["peak"] == "callable-lambda"
+        if fallback:
+            ctx.count("unpicklable-peak:" + ("recording" if fake else "real"))
+            if order:
+                report(routine, c, "tasks %s ran in the pool although `peak` cannot be pickled" % order)
+        elif routine == "srs" and c["peak"] == "callable-meansq" and len(order) == c["LF"]:
+            ctx.count("picklable-callable-peak-in-pool:" + ("recording" if fake else "real"))
+        went_serial = fallback or (fake and c.get("parallel") == "auto" and not plans)
         if len(order) != c["LF"] and not went_serial:
             report(routine, c, "the pool ran %d tasks for %d frequencies (observed %s)" % (len(order), c["LF"], order))
         if d:
@@ -791,8 +819,10 @@ def _compare_all(ctx, report, hints=(), extra=()):
 
 
 _PERMS_SEEN = {}
-# genuine finding on the unchanged tree (see the final report of the C09 extension): a `peak` function that cannot be
-# pickled makes the parallel path raise; set to False to stop probing it
+# F53 (repaired in /repo by `fix:` commit 6fe4fad): a `peak` function that cannot be pickled made the parallel path
+# raise where parallel='no' returns the spectrum.  The probe stays as a regression guard: it passes on the repaired
+# tree and reports this family again if the PicklingError ever returns (tools/reverttest.sh 6fe4fad C09)
+FIXED_F53 = "parallel-path-raises:srs:peak-callable-not-picklable"
 REPORT_UNPICKLABLE_PEAK = True
 
 
@@ -1099,7 +1129,8 @@ def correspondence(ctx):
     _decision_stream(ctx)
     # (c) recording pool: every completion order of <= 4 (5) tasks, plus the 'auto' rule end to end;
     # (d) real pool: forced orders (every permutation of <= 3 (4) tasks) and the random streams
-    extra = _perm_cases(ctx, "fake", ctx.pick(4, 5)) + _auto_cases(ctx) + _perm_cases(ctx, "real", ctx.pick(3, 4))
+    extra = (_perm_cases(ctx, "fake", ctx.pick(4, 5)) + _auto_cases(ctx) + _peak_guard_cases(ctx)
+             + _perm_cases(ctx, "real", ctx.pick(3, 4)))
     plan_checks = _compare_all(ctx, rep, extra=extra)
     if plan_checks:
         qs = [q for item in plan_checks for q in item[0]]
@@ -1133,7 +1164,9 @@ def correspondence(ctx):
         # on a run without any disagreement or broken obligation every order of <= 4 tasks must have been executed on the recording
         # pool and the plan stream must have run (a case that raises is a disagreement and ends up as a violation)
         ctx.require_branches(["all-orders-recording:srs:4", "all-orders-recording:fdepsd:4", "all-orders-recording:srs:3",
-                              "parent-plan:srs", "parent-plan:fdepsd", "auto:parallel", "auto:serial"])
+                              "parent-plan:srs", "parent-plan:fdepsd", "auto:parallel", "auto:serial",
+                              "unpicklable-peak:recording", "unpicklable-peak:real",
+                              "picklable-callable-peak-in-pool:recording", "picklable-callable-peak-in-pool:real"])
 
 
 def _auto_cases(ctx):
@@ -1151,7 +1184,29 @@ def _auto_cases(ctx):
     return out
 
 
+def _peak_guard_cases(ctx):
+    """the override of srs.srs between the decision and the split (F53): a `peak` function pickle refuses goes to
+    the serial loop under 'yes' and under 'auto' on a big block, a module-level function still goes to the pool;
+    on the recording pool (plan vs the Lean `routineDecision`) and on the real pool"""
+    rng = ctx.rng
+    out = []
+    for pool in ("fake", "real"):
+        for peak in ("callable-lambda", "callable-meansq"):
+            for (mode, N, H) in [("yes", 60, 2), ("yes", 90, 1)] + ([("auto", 25001, 2)] if pool == "fake" else []):
+                for getresp in ((False, True) if mode == "yes" else (False,)):
+                    LF = rng.randint(2, 4)
+                    out.append(("srs", dict(
+                        stype=rng.choice(_STYPES), ic=rng.choice(_ICS), getresp=getresp, time=rng.choice(_TIMES), peak=peak,
+                        maxcpu=rng.choice([2, 3, None]), LF=LF, N=N, H=H, oneD=(H == 1), kind="noise", pattern="perm",
+                        order=list(range(LF))[::-1], pool=pool, parallel=mode, cpu=16, eqsine=rng.random() < 0.5, zero_freq=False,
+                        dup_freq=False, seed=rng.randint(0, 10 ** 6), fdtype="float64", sdtype="float64", layout="C",
+                        flayout="C", rolloff="none", ppc=4, gap=0.02)))
+    return out
+
+
 def _family(routine, c, detail):
+    if c.get("peak") == "callable-lambda" and "ickl" in str(detail):
+        return FIXED_F53
     if "sequence" in c:
         return "parallel-call-sequence:%s" % routine
     if str(detail).startswith("tasks ran in"):
@@ -1250,8 +1305,8 @@ def _doc_oracle(ctx):
                      {"routine": "fdepsd-options", "case": {"parallel": par, "maxcpu": mc}}, [ns.parallel, ns.ncpu],
                      "parallel echoed, 1 <= ncpu <= min(cpu count, maxcpu)")
     # `peak` is documented as "a string or a function": a function that cannot be pickled (a lambda, a function
-    # defined inside another one) must give what parallel='no' gives.  FINDING on the unchanged tree (reported under
-    # its own family): the parallel path hands the function to the workers inside the task tuple, which is pickled.
+    # defined inside another one) must give what parallel='no' gives.  Regression guard for F53 (repaired: srs.srs now
+    # runs such a function serially; before, the task tuple holding it was pickled and the parallel path raised).
     if REPORT_UNPICKLABLE_PEAK:
         local_peak = lambda x: abs(x).max(axis=0)  # noqa: E731
         with warnings.catch_warnings():
@@ -1266,7 +1321,7 @@ def _doc_oracle(ctx):
                     ctx.fail("parallel-differs-from-serial:srs", d, {"routine": "srs-options", "case": {"peak": "lambda"}}, d,
                              "bit-identical outputs")
             except Exception as e:  # noqa: BLE001
-                ctx.fail("parallel-path-raises:srs:peak-callable-not-picklable",
+                ctx.fail(FIXED_F53,
                          "srs(sig, sr, freq, Q, peak=<lambda>, parallel='yes') raises %s: %s; parallel='no' returns the spectrum "
                          "(with the default parallel='auto' the same happens as soon as sig.size > 50000 and len(freq) > 1)"
                          % (type(e).__name__, str(e)[:160]),
